@@ -16,4 +16,4 @@ else
   rm -f _CoqProject.new
 fi
 [ -f Makefile.coq ] || coq_makefile -f _CoqProject -o Makefile.coq >/dev/null
-timeout 3000 make -f Makefile.coq -j"${JOBS:-16}" "$@"
+timeout 3000 make ${KEEP_GOING:+-k} -f Makefile.coq -j"${JOBS:-16}" "$@"
